@@ -429,6 +429,7 @@ impl Driver {
         sim.boot_term = if shape.boot > 0 { BOOT_TERM } else { 0 };
         sim.net.echo_snapshots = if profile == Profile::Snapshot { 3 } else { 10 };
         sim.net.echo_state = seed ^ 0x9e37_79b9_7f4a_7c15;
+        sim.late_snapshot_report = std::env::var("RVMON_LATE_SNAP").is_ok();
 
         let members: Vec<u64> = init_conf.members().into_iter().collect();
         let mut universe = members.clone();
@@ -708,7 +709,7 @@ impl Driver {
                 for k in 0..n {
                     let v = (start + k) % n;
                     let nd = &self.sim.nodes[v];
-                    if nd.idle() && !nd.apply_q.is_empty() && !nd.apply_hold {
+                    if nd.idle() && (!nd.apply_q.is_empty() || nd.pending_snap_report.is_some()) && !nd.apply_hold {
                         found = Some(v);
                         break;
                     }
@@ -728,7 +729,8 @@ impl Driver {
                     let mut items = Vec::new();
                     for _ in 0..k {
                         let sz = *self.rng.pick(&[8usize, 8, 12, 30]);
-                        if self.rng.chance(1, 6) {
+                        // (never a membership change where the profile rules them out)
+                        if self.w[K_CONF] > 0 && self.rng.chance(1, 6) {
                             items.push((0, Some(self.random_conf_spec())));
                         } else {
                             items.push((sz, None));
@@ -976,7 +978,7 @@ impl Driver {
                         }
                         continue;
                     }
-                    if !nd.apply_q.is_empty() && !nd.apply_hold {
+                    if (!nd.apply_q.is_empty() || nd.pending_snap_report.is_some()) && !nd.apply_hold {
                         if self.sim.exec(&Action::Apply(v, 16)) {
                             moved = true;
                         }
